@@ -163,6 +163,9 @@ func (e *Eval) evalBinaryExpr(b *ast.BinaryExpr, env *Env) (Obj, error) {
 	case ast.ItemAsterisk:
 		return mul(l, r), nil
 	case ast.ItemForwardSlash:
+		if isIntDivByZero(l, r) {
+			return nil, fmt.Errorf("integer division by zero")
+		}
 		return div(l, r), nil
 	case ast.OpGreaterThan:
 		return gt(l, r), nil
